@@ -11,8 +11,8 @@
                       read_table_metadata (rels path, Relationship scan, "../" resolution, table
                       part scan, geometry arithmetic), load_tables, table_names,
                       table_names_in_sheet, get_table_meta, table_by_name / table_by_name_ref
-                      (get_dimension / get_row_column: the hardened scanner [get_dimension_h]
-                      below, over Col26.v's state and error classes; Range::range from Range.v)
+                      (get_dimension / get_row_column: Col26.v, the hardened scanner;
+                      Range::range from Range.v)
      src/xls.rs       parse_merge_cells (with the length checks of c8fd2d5), the MergeCells / EOF arms of the sheet-substream loop of
                       parse_workbook, the BTreeMap of sheets, worksheet_merge_cells(_at)
 
@@ -137,75 +137,11 @@ Fixpoint zip_find (z : zip) (path : str) : option (list event) :=
   | (n, evs) :: t => if eq_ignore_ascii_case n path then Some evs else zip_find t path
   end.
 
-(* ================================================================== MODEL: the A1 scanner as of HEAD *)
-(* get_row_and_optional_column / get_row_column / get_dimension after the hardening commits
-   348f419 and 717a5d9: row, col and pow are u64 with saturating arithmetic, the results are
-   converted with u32::try_from (failure: XlsxError::Unexpected), the sizes used for the
-   warnings are saturating subtractions.  Col26.v (property C14) still models the scanner before
-   those commits (u32 arithmetic that panics on overflow, sub32 on reversed refs); its owner is
-   resyncing it.  Until that lands the hardened scanner is modelled here, on Col26's state record
-   and error classes; Merge_proofs.get_dimension_h_agrees shows that wherever Col26.get_dimension
-   answers Ok the hardened one gives the same answer (so the round-trip theorems carry over), and
-   get_dimension_h_safe that it never panics.  When Col26.v is resynced this section is to be
-   replaced by Col26.get_dimension. *)
-Definition E_OUT_OF_RANGE : N := 16.      (* Unexpected("row / column number out of range") *)
-Definition sat_add64 (a b : N) : N := N.min (a + b) U64MAX.
-Definition sat_mul64 (a b : N) : N := N.min (a * b) U64MAX.
-
-Definition scan_letter_h (base c : N) (s : scan_state) : outcome scan_state :=
-  do s1 <- (if s_readrow s then
-              if s_row s =? 0 then Err E_NO_ROW
-              else Ok {| s_row := s_row s; s_col := s_col s; s_pow := 1; s_readrow := false |}
-            else Ok s);
-  Ok {| s_row := s_row s1;
-        s_col := sat_add64 (s_col s1) (sat_mul64 (c - base + 1) (s_pow s1));
-        s_pow := sat_mul64 (s_pow s1) 26; s_readrow := false |}.
-
-Definition scan_char_h (c : N) (s : scan_state) : outcome scan_state :=
-  if is_digit c then
-    if s_readrow s then
-      Ok {| s_row := sat_add64 (s_row s) (sat_mul64 (c - ch_0) (s_pow s)); s_col := s_col s;
-            s_pow := sat_mul64 (s_pow s) 10; s_readrow := true |}
-    else Err E_NUMERIC_COLUMN
-  else if is_upper c then scan_letter_h ch_A c s
-  else if is_lower c then scan_letter_h ch_a c s
-  else Err E_ALPHANUMERIC.
-
-Fixpoint scan_loop_h (rs : list N) (s : scan_state) : outcome scan_state :=
-  match rs with
-  | [] => Ok s
-  | c :: t => do s' <- scan_char_h c s; scan_loop_h t s'
-  end.
-
-Definition get_row_and_optional_column_h (range : list N) : outcome (N * option N) :=
-  do s <- scan_loop_h (rev range) scan_init;
-  if s_row s =? 0 then Err E_NO_ROW                              (* row.checked_sub(1).ok_or(..)? *)
-  else if U32MAX <? s_row s - 1 then Err E_OUT_OF_RANGE          (* u32::try_from(row) *)
-  else if s_col s =? 0 then Ok (s_row s - 1, None)               (* col.checked_sub(1) = None *)
-  else if U32MAX <? s_col s - 1 then Err E_OUT_OF_RANGE          (* .map(u32::try_from).transpose() *)
-  else Ok (s_row s - 1, Some (s_col s - 1)).
-
-Definition get_row_column_h (range : list N) : outcome (N * N) :=
-  do rc <- get_row_and_optional_column_h range;
-  match snd rc with
-  | Some c => Ok (fst rc, c)
-  | None => Err E_NO_COLUMN
-  end.
-
-Fixpoint collect_parts_h (ps : list (list N)) : outcome (list (N * N)) :=
-  match ps with
-  | [] => Ok []
-  | p :: t => do x <- get_row_column_h p; do xs <- collect_parts_h t; Ok (x :: xs)
-  end.
-
-Definition get_dimension_h (dimension : list N) : outcome ((N * N) * (N * N)) :=
-  do parts <- collect_parts_h (split_on ch_colon dimension []);
-  match parts with
-  | [] => Err E_DIMENSION_COUNT
-  | [p] => Ok (p, p)
-  | [p0; p1] => Ok (p0, p1)        (* the saturating_sub sizes only feed warn!() *)
-  | _ => Err E_DIMENSION_COUNT
-  end.
+(* ================================================================== MODEL: the A1 scanner *)
+(* get_row_and_optional_column / get_row_column / get_dimension (u64 saturating accumulators,
+   u32::try_from -> Err, no subtraction in get_dimension: commits 348f419 and 717a5d9) are
+   Col26.get_row_and_optional_column / Col26.get_row_column / Col26.get_dimension; Col26.v was
+   resynced to that code, so the local copy (get_dimension_h) that stood here is gone. *)
 
 (* ================================================================== MODEL: xlsx merged regions *)
 
@@ -217,7 +153,7 @@ Fixpoint scan_merge_regions (evs : list event) : outcome (list dims) :=
   | EStart n attrs :: t =>
       if str_eqb (local_name n) s_mergeCell then
         match first_attr attrs s_ref with
-        | Some v => do d <- get_dimension_h v; do rest <- scan_merge_regions t; Ok (d :: rest)
+        | Some v => do d <- get_dimension v; do rest <- scan_merge_regions t; Ok (d :: rest)
         | None => scan_merge_regions t
         end
       else scan_merge_regions t
@@ -251,7 +187,7 @@ Fixpoint read_merge_cells (evs : list event) : outcome (list dims) :=
   | EStart n attrs :: t =>
       if str_eqb (local_name n) s_mergeCell then
         match first_attr attrs s_ref with
-        | Some v => do d <- get_dimension_h v; do rest <- read_merge_cells t; Ok (d :: rest)
+        | Some v => do d <- get_dimension v; do rest <- read_merge_cells t; Ok (d :: rest)
         | None => read_merge_cells t
         end
       else read_merge_cells t
@@ -501,7 +437,7 @@ Fixpoint scan_table (evs : list event) (m : tmeta) (cols : list str) : outcome (
    when they reach up to row 0 the table has no data rows, recorded — like every table without
    data rows — as a first data row below the last one *)
 Definition table_dims (m : tmeta) : outcome dims :=
-  do d <- get_dimension_h (tm_ref m);
+  do d <- get_dimension (tm_ref m);
   let '((sr, sc), (er, ec)) := d in
   do sr1 <- (if tm_header m =? 0 then Ok sr
              else if sr + tm_header m <=? U32MAX then Ok (sr + tm_header m) else Err E_UNEXPECTED);
